@@ -628,21 +628,23 @@ def main(run):
     cheap = [r for r in READERS if r not in EXPENSIVE]
     if tier == "quick":
         systems = [
-            ("d1_r2_box", System(["box"], cheap + ["ALL"], 1, 2, both_orders=False), 3),
-            ("d1_r1_all_meshes", System(["tet", "two_tets", "open_box", "tet_dup", "tet_colors"], cheap + ["ALL"], 1, 1, both_orders=False), 2),
-            ("d2_r1_allreads", System(["tet", "box", "tet_dup"], ["ALL", "face_normals", "vertex_normals", "edges"], 2, 1, both_orders=True), 4),
+            ("d1_r2_box", System(["box"], cheap + ["ALL"], 1, 2, both_orders=False), 3, None),
+            ("d1_r1_all_meshes", System(["tet", "two_tets", "open_box", "tet_dup", "tet_colors"], cheap + ["ALL"], 1, 1, both_orders=False), 2, None),
+            ("d2_r1_allreads", System(["tet", "box", "tet_dup"], ["ALL", "face_normals", "vertex_normals", "edges"], 2, 1, both_orders=True), 4, None),
         ]
     else:
+        few = ["ALL", "face_normals", "vertex_normals", "edges_unique", "face_adjacency", "triangles", "center_mass", "vertex_faces"]
         systems = [
-            ("d1_r2", System(["tet", "box", "two_tets", "open_box", "tet_dup", "tet_colors"], list(READERS) + ["ALL", "ALL_REVERSED"], 1, 2), 3),
-            ("d2_r1", System(["tet", "box", "two_tets", "open_box", "tet_dup", "tet_colors"], cheap + ["ALL"], 2, 1), 4),
-            ("d3_r1_few", System(["tet", "box", "tet_dup"], ["ALL", "face_normals", "vertex_normals", "edges"], 3, 1), 6),
+            ("d1_r2", System(["tet", "box", "two_tets", "open_box", "tet_dup", "tet_colors"], list(READERS) + ["ALL", "ALL_REVERSED"], 1, 2), 3, None),
+            ("d2_r1", System(["tet", "box", "tet_dup"], few, 2, 1), 4, None),
+            # three mutators: the frontier is capped (reported as capped, not as exhaustive)
+            ("d3_r1_few", System(["tet", "tet_dup"], ["ALL", "face_normals"], 3, 1), 6, 60000),
         ]
     total = {"states": 0, "transitions": 0}
     parts = {}
-    for name, sysm, depth in systems:
+    for name, sysm, depth, cap in systems:
         run.log(f"search {name}")
-        r = explorer.bfs(sysm, run, max_depth=depth)
+        r = explorer.bfs(sysm, run, max_depth=depth, state_cap=cap)
         parts[name] = r
         total["states"] += r["states"]
         total["transitions"] += r["transitions"]
@@ -655,7 +657,8 @@ def main(run):
         "searches": parts,
         "readers": len(READERS),
         "mutators": len(MUTATORS),
-        "exhaustive": True,
+        "exhaustive": not any(v["capped"] for v in parts.values()),
+        "caps": "; ".join(f"{k}: state cap reached at depth {v['depth_completed']} ({v['states']} states), complete below" for k, v in parts.items() if v["capped"]) or "none",
         "samples": [
             {"start": "box", "history": [["read", "face_normals"], ["apply_transform", "aniso"]], "then": "every reader compared with a fresh mesh, forward and reverse order"},
             {"start": "tet", "history": [["read", "edges"], ["read", "vertex_normals"], ["invert"]]},
